@@ -57,6 +57,9 @@ theorem frame_runNAct (rules : List Rule) (tx : Tx) (a : NAct) : Frame tx (runNA
   | ctlRemoveByRange lo hi => exact ⟨rfl, rfl, rfl, rfl, rfl, rfl, ⟨[], by simp [runNAct]⟩, ⟨[(lo, hi)], rfl⟩, ⟨[], by simp [runNAct]⟩, ⟨[], by simp [runNAct]⟩⟩
   | ctlRemoveByTag tag => exact ⟨rfl, rfl, rfl, rfl, rfl, rfl, ⟨_, rfl⟩, ⟨[], by simp [runNAct]⟩, ⟨[], by simp [runNAct]⟩, ⟨[], by simp [runNAct]⟩⟩
   | ctlRemoveTargetById lo hi v key => exact ⟨rfl, rfl, rfl, rfl, rfl, rfl, ⟨[], by simp [runNAct]⟩, ⟨[], by simp [runNAct]⟩, ⟨_, rfl⟩, ⟨[], by simp [runNAct]⟩⟩
+  | ctlRemoveByMsg msg => exact ⟨rfl, rfl, rfl, rfl, rfl, rfl, ⟨_, rfl⟩, ⟨[], by simp [runNAct]⟩, ⟨[], by simp [runNAct]⟩, ⟨[], by simp [runNAct]⟩⟩
+  | ctlRemoveTargetByTag tag v key => exact ⟨rfl, rfl, rfl, rfl, rfl, rfl, ⟨[], by simp [runNAct]⟩, ⟨[], by simp [runNAct]⟩, ⟨_, rfl⟩, ⟨[], by simp [runNAct]⟩⟩
+  | ctlRemoveTargetByMsg msg v key => exact ⟨rfl, rfl, rfl, rfl, rfl, rfl, ⟨[], by simp [runNAct]⟩, ⟨[], by simp [runNAct]⟩, ⟨_, rfl⟩, ⟨[], by simp [runNAct]⟩⟩
   | ctlAuditEngine m => exact Frame.of_eq rfl rfl rfl rfl rfl rfl rfl rfl rfl rfl
   | ctlAuditLogParts md =>
     simp only [runNAct]
